@@ -6,6 +6,10 @@ deep-embedded IR of coq/Model/LoopIR.v.  The IR programs are run by the Coq inte
 QcC (vm_compute) and compared with ZERO tolerance against the hand-written Gallina models (coq/Model/LoopIRTie.v):
 same outcome constructor, every array entry, every scalar.
 
+For LEVINSON, CORRELATION, levup, levdown, HERMTOEP and minvar_psi the equality `run program args = model` is in addition a THEOREM for
+all inputs (coq/Proofs/LoopIR<Name>.v, table THEOREMS below): it is instantiated in the generated file whenever the regenerated program
+text equals the reference text kept in the proof file; otherwise it is not claimed and the exact evaluation decides.
+
 The translator is fail-closed: an `ast` node outside the recognised subset aborts the translation of that function
 (`Untranslatable`), which the tie reports through ctx.broken as "translation of <fn> failed: <node>".  Nothing is
 skipped silently; what is ignored is listed here: docstrings / bare string statements, `logging.<f>(...)` statements
@@ -1209,16 +1213,200 @@ Print Assumptions loopir_LEVINSON_real.
 """
 
 
+# ---------------------------------------------------------------- CORRELATION: translation + theorem
+COR_PROOF = 'Proofs/LoopIRCorrelation.v'
+COR_THEOREMS = ['loopir_CORRELATION_model', 'loopir_CORRELATION_tie']
+COR_BLOCK = """
+(* The program regenerated on this run is, term for term, the one Proofs/LoopIRCorrelation.v is about: its theorems apply. *)
+Require Import Spectrum.Theory.Ops Spectrum.Theory.Vec Spectrum.Model.Corr Spectrum.Model.LoopIRTie Spectrum.Proofs.LoopIRCorrelation.
+Lemma prog_CORRELATION_is_ref : prog_CORRELATION = prog_CORRELATION_ref.
+Proof. reflexivity. Qed.
+(* for ALL arguments the tie passes (x, y omitted or given, any lengths incl. empty, maxlags omitted or ANY integer, norm omitted /
+   None / any string, any oracle values for the two pylab_rms_flat calls, both dtype tags; a float-tagged second array real-valued):
+   the run returns / raises exactly what the hand-written model says *)
+Theorem loopir_CORRELATION_model :
+  forall (F : Type) (OF : Ops F) (L : Laws OF) (feq : F -> F -> bool) (stop : Z -> F -> F -> bool)
+         (rx : bool) (x : list F) (y : option (bool * list F)) (maxlags : option Z) (nm : option (option string)) (rmsx rmsy : F),
+  let ry := match y with None => rx | Some q => fst q end in
+  let yl := match y with None => x | Some q => snd q end in
+  let N := Nat.max (length x) (length yl) in
+  let ml := match maxlags with Some m => m | None => (Z.of_nat N - 1)%Z end in
+  (rx && ry = true -> forall j, conj (nthF yl j) = nthF yl j) ->
+  run feq stop prog_CORRELATION
+      [Some (VArr rx x); option_map (fun q => VArr (fst q) (snd q)) y; option_map VI maxlags;
+       option_map (fun s => match s with None => VNone | Some t => VStr t end) nm; Some (VF rmsx); Some (VF rmsy)] =
+  match norm_of nm with
+  | None => OErr AssertionError
+  | Some cn =>
+      if (ml <? 0)%Z then OErr ValueError
+      else match correlation (rmsx * rmsy)%F x yl (Z.to_nat ml) cn with
+           | Some r => ORet [VArr (rx && ry) r]
+           | None => OErr AssertionError
+           end
+  end.
+Proof. intros. rewrite prog_CORRELATION_is_ref. apply (correlation_ir feq stop rx x y maxlags nm rmsx rmsy). assumption. Qed.
+(* hence the boolean of the exact evaluation tie is true on its whole domain, for every reflexive equality test *)
+Theorem loopir_CORRELATION_tie :
+  forall (F : Type) (OF : Ops F) (L : Laws OF) (feq : F -> F -> bool), (forall a, feq a a = true) ->
+  forall (rx : bool) (x : list F) (y : option (bool * list F)) (maxlags : option nat) (nm : option (option string)) (rmsx rmsy : F),
+  let ry := match y with None => rx | Some q => fst q end in
+  let yl := match y with None => x | Some q => snd q end in
+  (rx && ry = true -> forall j, conj (nthF yl j) = nthF yl j) ->
+  (maxlags = None -> (0 < Nat.max (length x) (length yl))%nat) ->
+  tie_correlation feq prog_CORRELATION rx x y maxlags nm rmsx rmsy = true.
+Proof. intros. rewrite prog_CORRELATION_is_ref. apply correlation_ir_tie; assumption. Qed.
+Print Assumptions loopir_CORRELATION_model.
+Print Assumptions loopir_CORRELATION_tie.
+"""
+
+# ---------------------------------------------------------------- levup, levdown: translation + theorem
+LEVUP_PROOF = 'Proofs/LoopIRLevup.v'
+LEVUP_THEOREMS = ['loopir_levup_model', 'loopir_levup_tie']
+LEVUP_BLOCK = """
+(* The program regenerated on this run is, term for term, the one Proofs/LoopIRLevup.v is about: its theorems apply. *)
+Require Import Spectrum.Theory.Ops Spectrum.Theory.Vec Spectrum.Model.Levinson Spectrum.Model.LoopIRTie Spectrum.Proofs.LoopIRLevup.
+Lemma prog_levup_is_ref : prog_levup = prog_levup_ref.
+Proof. reflexivity. Qed.
+Theorem loopir_levup_model :
+  forall (F : Type) (OF : Ops F) (L : Laws OF) (feq : F -> F -> bool) (stop : Z -> F -> F -> bool)
+         (t : bool) (acur : list F) (k : F) (e : option F),
+  run feq stop prog_levup [Some (VArr t acur); Some (VF k); option_map VF e] =
+  match acur with
+  | [] => OErr IndexError
+  | a0 :: _ =>
+      if negb (feq a0 1%F) then OErr ValueError
+      else ORet [VArr false (fst (levup acur k 0%F));
+                 match e with Some z => VF (snd (levup acur k z)) | None => VNone end]
+  end.
+Proof. intros. rewrite prog_levup_is_ref. apply levup_ir_run. Qed.
+Theorem loopir_levup_tie :
+  forall (F : Type) (OF : Ops F) (L : Laws OF) (feq : F -> F -> bool), (forall a, feq a a = true) ->
+  forall (acur : list F) (k : F) (e : option F), acur <> [] -> tie_levup feq prog_levup acur k e = true.
+Proof. intros. rewrite prog_levup_is_ref. apply levup_ir_tie; assumption. Qed.
+Print Assumptions loopir_levup_model.
+Print Assumptions loopir_levup_tie.
+"""
+LEVDOWN_PROOF = 'Proofs/LoopIRLevdown.v'
+LEVDOWN_THEOREMS = ['loopir_levdown_model', 'loopir_levdown_chk', 'loopir_levdown_tie']
+LEVDOWN_BLOCK = """
+(* The program regenerated on this run is, term for term, the one Proofs/LoopIRLevdown.v is about: its theorems apply. *)
+Require Import Spectrum.Theory.Ops Spectrum.Theory.Vec Spectrum.Model.Levinson Spectrum.Model.LinPred Spectrum.Model.LoopIRTie Spectrum.Proofs.LoopIRLevdown.
+Lemma prog_levdown_is_ref : prog_levdown = prog_levdown_ref.
+Proof. reflexivity. Qed.
+Theorem loopir_levdown_model :
+  forall (F : Type) (OF : Ops F) (L : Laws OF) (feq : F -> F -> bool) (stop : Z -> F -> F -> bool)
+         (t : bool) (anxt : list F) (e : option F),
+  run feq stop prog_levdown [Some (VArr t anxt); option_map VF e] =
+  match anxt with
+  | [] => OErr IndexError
+  | a0 :: a =>
+      if negb (feq a0 1%F) then OErr ValueError
+      else match a with
+           | [] => OErr IndexError
+           | _ :: _ =>
+               if feq (nthF anxt (length anxt - 1)) 1%F then OErr ValueError
+               else ORet [VArr false (fst (levdown anxt 0%F));
+                          match e with Some z => VF (snd (levdown anxt z)) | None => VNone end]
+           end
+  end.
+Proof. intros. rewrite prog_levdown_is_ref. apply levdown_ir_run. Qed.
+Theorem loopir_levdown_chk :
+  forall (F : Type) (OF : Ops F) (L : Laws OF) (feq : F -> F -> bool) (stop : Z -> F -> F -> bool)
+         (t : bool) (anxt : list F) (e : option F),
+  (2 <= length anxt)%nat ->
+  run feq stop prog_levdown [Some (VArr t anxt); option_map VF e] =
+  match @levdown_chk F OF feq anxt (match e with Some z => z | None => 0%F end) with
+  | None => OErr ValueError
+  | Some (a', e') => ORet [VArr false a'; match e with Some _ => VF e' | None => VNone end]
+  end.
+Proof. intros. rewrite prog_levdown_is_ref. apply levdown_ir_chk; assumption. Qed.
+Theorem loopir_levdown_tie :
+  forall (F : Type) (OF : Ops F) (L : Laws OF) (feq : F -> F -> bool), (forall a, feq a a = true) ->
+  forall (anxt : list F) (e : option F), (2 <= length anxt)%nat -> tie_levdown feq prog_levdown anxt e = true.
+Proof. intros. rewrite prog_levdown_is_ref. apply levdown_ir_tie; assumption. Qed.
+Print Assumptions loopir_levdown_model.
+Print Assumptions loopir_levdown_chk.
+Print Assumptions loopir_levdown_tie.
+"""
+
+# ---------------------------------------------------------------- HERMTOEP: translation + theorem
+HERM_PROOF = 'Proofs/LoopIRHermtoep.v'
+HERM_THEOREMS = ['loopir_HERMTOEP_model', 'loopir_HERMTOEP_tie']
+HERM_BLOCK = """
+(* The program regenerated on this run is, term for term, the one Proofs/LoopIRHermtoep.v is about: its theorems apply. *)
+Require Import Spectrum.Theory.Ops Spectrum.Theory.Vec Spectrum.Model.Levinson Spectrum.Model.LoopIRTie Spectrum.Proofs.LoopIRHermtoep.
+Lemma prog_HERMTOEP_is_ref : prog_HERMTOEP = prog_HERMTOEP_ref.
+Proof. reflexivity. Qed.
+Theorem loopir_HERMTOEP_model :
+  forall (F : Type) (OF : Ops F) (L : Laws OF) (feq : F -> F -> bool) (stop : Z -> F -> F -> bool)
+         (t0 : F) (tT : bool) (T : list F) (tZ : bool) (Zr : list F),
+  (T = [] \\/ feq t0 0%F = true \\/ (length T + 1 <= length Zr)%nat) ->
+  run feq stop prog_HERMTOEP [Some (VF t0); Some (VArr tT T); Some (VArr tZ Zr)] =
+  if Nat.eqb (length T) 0 then OErr AssertionError
+  else if feq t0 0%F then OErr ValueError
+  else match hermtoep t0 T Zr with
+       | Some X => ORet [VArr false X]
+       | None => OErr ValueError
+       end.
+Proof. intros. rewrite prog_HERMTOEP_is_ref. apply hermtoep_ir_run; assumption. Qed.
+Theorem loopir_HERMTOEP_tie :
+  forall (F : Type) (OF : Ops F) (L : Laws OF) (feq : F -> F -> bool), (forall a, feq a a = true) ->
+  forall (t0 : F) (T Zr : list F), (length T + 1 <= length Zr)%nat -> tie_hermtoep feq prog_HERMTOEP t0 T Zr = true.
+Proof. intros. rewrite prog_HERMTOEP_is_ref. apply hermtoep_ir_tie; assumption. Qed.
+Print Assumptions loopir_HERMTOEP_model.
+Print Assumptions loopir_HERMTOEP_tie.
+"""
+
+# ---------------------------------------------------------------- the psi loop of minvar: translation + theorem
+MVPSI_PROOF = 'Proofs/LoopIRMinvarPsi.v'
+MVPSI_THEOREMS = ['loopir_minvar_psi_model', 'loopir_minvar_psi_tie']
+MVPSI_BLOCK = """
+(* The program regenerated on this run is, term for term, the one Proofs/LoopIRMinvarPsi.v is about: its theorems apply. *)
+Require Import Spectrum.Theory.Ops Spectrum.Theory.Vec Spectrum.Model.Minvar Spectrum.Model.LoopIRTie Spectrum.Proofs.LoopIRMinvarPsi.
+Lemma prog_minvar_psi_is_ref : prog_minvar_psi = prog_minvar_psi_ref.
+Proof. reflexivity. Qed.
+Theorem loopir_minvar_psi_model :
+  forall (F : Type) (OF : Ops F) (L : Laws OF) (feq : F -> F -> bool) (stop : Z -> F -> F -> bool)
+         (m nfft : nat) (ta : bool) (a : list F) (P : F),
+  (m <= length a + 1)%nat ->
+  run feq stop prog_minvar_psi [Some (VI (Z.of_nat m)); Some (VI (Z.of_nat nfft)); Some (VArr ta a); Some (VF P)] =
+  if (nfft <? m)%nat then OErr IndexError else ORet [VArr false (psi_loop m nfft (1%F :: a) P)].
+Proof. intros. rewrite prog_minvar_psi_is_ref. apply minvar_psi_ir_run; assumption. Qed.
+Theorem loopir_minvar_psi_tie :
+  forall (F : Type) (OF : Ops F) (L : Laws OF) (feq : F -> F -> bool), (forall a, feq a a = true) ->
+  forall (m nfft : nat) (a : list F) (P : F), (m <= length a + 1)%nat -> tie_minvar_psi feq prog_minvar_psi m nfft a P = true.
+Proof. intros. rewrite prog_minvar_psi_is_ref. apply minvar_psi_ir_tie; assumption. Qed.
+Print Assumptions loopir_minvar_psi_model.
+Print Assumptions loopir_minvar_psi_tie.
+"""
+
+# routine -> the proof file its reference program text lives in, the theorems the generated file instantiates, the block that does it
+THEOREMS = {
+    'LEVINSON': dict(proof=LEV_PROOF, theorems=LEV_THEOREMS, block=LEV_BLOCK),
+    'CORRELATION': dict(proof=COR_PROOF, theorems=COR_THEOREMS, block=COR_BLOCK),
+    'levup': dict(proof=LEVUP_PROOF, theorems=LEVUP_THEOREMS, block=LEVUP_BLOCK),
+    'levdown': dict(proof=LEVDOWN_PROOF, theorems=LEVDOWN_THEOREMS, block=LEVDOWN_BLOCK),
+    'HERMTOEP': dict(proof=HERM_PROOF, theorems=HERM_THEOREMS, block=HERM_BLOCK),
+    'minvar_psi': dict(proof=MVPSI_PROOF, theorems=MVPSI_THEOREMS, block=MVPSI_BLOCK),
+}
+
+
+def reference_text(name):
+    """the program text the proof file of `name` was proved about (between its BEGIN/END GENERATED markers)"""
+    t = open(os.path.join(vlib.COQ, THEOREMS[name]['proof'])).read()
+    m = re.search(r'\(\* BEGIN GENERATED %s[^\n]*\*\)\n(.*?)\(\* END GENERATED %s \*\)' % (name, name), t, re.S)
+    return m.group(1).replace('prog_%s_gen0' % name, 'prog_%s' % name) if m else None
+
+
 def levinson_reference_text():
-    """the program text Proofs/LoopIRLevinson.v was proved about (between its BEGIN/END markers)"""
-    t = open(os.path.join(vlib.COQ, LEV_PROOF)).read()
-    m = re.search(r'\(\* BEGIN GENERATED LEVINSON[^\n]*\*\)\n(.*?)\(\* END GENERATED LEVINSON \*\)', t, re.S)
-    return m.group(1).replace('prog_LEVINSON_gen0', 'prog_LEVINSON') if m else None
+    return reference_text('LEVINSON')
 
 
 TRUSTED_LINE = ("loop-IR tie: the translator tools/props/_loopir.py (Python ast -> IR, fail-closed) and the IR interpreter coq/Model/LoopIR.v "
                 "(semantics of the accepted Python/numpy fragment; arrays by value, no rounding) are trusted; the IR program is regenerated from the "
-                "snapshot source on every run and evaluated exactly (QcC, zero tolerance) against the hand-written model")
+                "snapshot source on every run and evaluated exactly (QcC, zero tolerance) against the hand-written model; for LEVINSON, CORRELATION, "
+                "levup, levdown, HERMTOEP and the psi loop of minvar `run program = model` is moreover a theorem for all inputs (Proofs/LoopIR*.v), "
+                "claimed only while the regenerated program text is the one the proof is about (compared on every run, reflexivity inside Coq)")
 
 
 def loopir_tie(ctx, names):
@@ -1254,20 +1442,22 @@ def loopir_tie(ctx, names):
             return
     defs = ''.join(p.coq() + '\n' for p in progs.values())
     gen = GEN_HEADER + defs; thms = []
-    if 'LEVINSON' in progs:
+    for nm in [n for n in progs if n in THEOREMS]:
         # translation + theorem: applies only to the very program text the theorem was proved about
-        ref = levinson_reference_text()
-        same = ref is not None and ' '.join(ref.split()) == ' '.join(progs['LEVINSON'].coq().split())
-        info['LEVINSON']['theorem'] = ('applies: the regenerated program is the one %s is about (re-checked by reflexivity inside Coq)' % LEV_PROOF) if same else \
+        proof = THEOREMS[nm]['proof']
+        ref = reference_text(nm)
+        same = ref is not None and ' '.join(ref.split()) == ' '.join(progs[nm].coq().split())
+        info[nm]['theorem'] = ('applies: the regenerated program is the one %s is about (re-checked by reflexivity inside Coq)' % proof) if same else \
             'does not apply: the regenerated program text differs from the one proved about; the exact evaluation tie decides'
         if same:
-            vo = os.path.join(vlib.COQ, LEV_PROOF[:-2] + '.vo')
-            if not os.path.exists(vo) or os.path.getmtime(vo) < os.path.getmtime(os.path.join(vlib.COQ, LEV_PROOF)):
-                rc, log = vlib.make_cone(LEV_PROOF[:-2] + '.vo')
+            vo = os.path.join(vlib.COQ, proof[:-2] + '.vo')
+            if not os.path.exists(vo) or os.path.getmtime(vo) < os.path.getmtime(os.path.join(vlib.COQ, proof)):
+                rc, log = vlib.make_cone(proof[:-2] + '.vo')
                 if rc != 0:
-                    ctx.broken.append({'theorem': 'loopir: build of %s' % LEV_PROOF, 'where': LEV_PROOF, 'log': log[-1500:]}); same = False
+                    ctx.broken.append({'theorem': 'loopir: build of %s' % proof, 'where': proof, 'log': log[-1500:]}); same = False
         if same:
-            gen += LEV_BLOCK; thms = LEV_THEOREMS
+            gen += THEOREMS[nm]['block']; thms = thms + THEOREMS[nm]['theorems']
+            info[nm]['theorems_instantiated'] = THEOREMS[nm]['theorems']
     ok, _ = ctx.check_generated('LoopIR_%s' % ctx.pid, gen, thms)
     if not ok:
         if not thms:
